@@ -561,7 +561,7 @@ fn main() {
     let prop = Property {
         id: "C17",
         level: "exploration",
-        rule: "traffic that keeps things undecodable, one scenario per single-threaded child process under the counting allocator: one object cached without FDT, many cached objects, decoded blocks waiting behind an incomplete block 0 (No-Code, RS28, RS28 under-specified, RaptorQ), FDT instance ids that never complete, FDT instances that arrive completely and do not parse, hundreds of idle sessions, objects failing one after the other, many complete FDT instances, objects stalling under FDT updates, packets naming source blocks far ahead inside an announced partitioning of 2^16 / 2^24 blocks; x cache size {1 KiB, 64 KiB, 1 MiB, default} x max_objects_error {0,1,16} x timeouts {5 ms, none} x traffic scale; oracle: structural invariants from verif_stats() after every push batch (cached bytes <= cache + 1 packet, waiting blocks <= cache + 2 blocks - on the hook's counter and, with a calibrated per-block allowance, on the real live heap -, error list <= max_objects_error, <= 10 complete FDTs), slope test on live heap (10x more traffic of the same kind costs no more than the configured bound), release after sleeping 12x the timeouts and one cleanup (no session, object or unfinished FDT left, heap back to baseline + 192 KiB); a case is one scenario, non-trivial when packets were pushed; distinct = scenario parameters",
+        rule: "traffic that keeps things undecodable, one scenario per single-threaded child process under the counting allocator: one object cached without FDT, many cached objects, decoded blocks waiting behind an incomplete block 0 (No-Code, RS28, RS28 under-specified, RaptorQ), FDT instance ids that never complete, FDT instances that arrive completely and do not parse, hundreds of idle sessions, objects failing one after the other, many complete FDT instances, objects stalling under FDT updates, packets naming source blocks far ahead inside an announced partitioning of 2^16 / 2^24 blocks; x cache size {1 KiB, 64 KiB, 1 MiB, default} x max_objects_error {0,1,16} x timeouts {5 ms, none} x traffic scale; oracle: structural invariants from verif_stats() after every push batch (cached bytes <= cache + 1 packet, waiting blocks <= cache + 2 blocks - on the hook's counter and, with a calibrated per-block allowance, on the real live heap -, error list <= max_objects_error, <= 10 complete FDTs), slope test on live heap (10x more traffic of the same kind costs no more than the configured bound), release after sleeping 12x the timeouts and one cleanup (no session, object or unfinished FDT left, heap back to baseline + 192 KiB); a case is one scenario, non-trivial when packets were pushed; distinct = scenario parameters; in one scenario out of three cleanup() runs on a period three times shorter than the timeouts during the whole silence",
         assumptions: vec![
             "heap numbers are process-wide counters of a single-threaded child; the monitoring writer stores no data".into(),
             "the number of simultaneously live objects / sessions within the timeout is a parameter of the bound, not a violation".into(),
